@@ -172,9 +172,9 @@ simd_harness!(c16_euclid_prefix, unwind = 10, {
 });
 
 // cosine, one block: equals dot / sqrt(|a|^2 |b|^2), symmetric, in [-1,1]
-simd_harness!(c16_cosine_1block, unwind = 10, {
-    let a = block(3, 4, 1.0);
-    let b = block(3, 4, 2.0);
+fn cosine_1block(sym: usize) {
+    let a = block(sym, 4, 1.0);
+    let b = block(sym, 4, 2.0);
     let fa: Feature = vec![f32x8::new(a)];
     let fb: Feature = vec![f32x8::new(b)];
     let c = cosine(&fa, &fb);
@@ -182,6 +182,12 @@ simd_harness!(c16_cosine_1block, unwind = 10, {
     assert!(c == expect, "cosine = dot / sqrt(|a|^2 |b|^2)");
     assert!(c == cosine(&fb, &fa), "cosine symmetric");
     assert!(c >= -1.0 && c <= 1.0, "cosine in [-1,1]");
+}
+simd_harness!(c16_cosine_1block_small, unwind = 10, {
+    cosine_1block(2);
+});
+simd_harness!(c16_cosine_1block, unwind = 10, {
+    cosine_1block(3);
 });
 
 // cosine of v against k*v (k > 0) is exactly 1, against -k*v exactly -1 (exact grid: sqrt of a perfect square)
